@@ -70,7 +70,7 @@ def krylov_cases(draw, tier):
         "dt_form": draw(st.sampled_from(["py", "cplx0", "np"])),
         "start": start,
         "sub_dim": draw(st.integers(1, 3)),
-        "eps_exp": draw(st.sampled_from([3, 6, 9, 12, 14])),
+        "eps_exp": draw(st.sampled_from([6, 5.5, 3, 5, 9, 12, 14])),
         "v_real": draw(st.booleans()),
         "vnorm": draw(st.sampled_from([1.0, 1.0, 0.1, 0.3, 5.0, 10.0])),
         "k_distinct": draw(st.integers(1, 4)),
